@@ -42,8 +42,15 @@ type Result struct {
 	maxViolation int
 }
 
+// liveResult: the result under construction (what memoryGuard saves when it has to end the run)
+var liveResult *Result
+
 func NewResult() *Result {
-	return &Result{Histogram: map[string]int{}, seen: map[string]bool{}, maxViolation: 8}
+	r := &Result{Histogram: map[string]int{}, seen: map[string]bool{}, maxViolation: 8}
+	if liveResult == nil {
+		liveResult = r
+	}
+	return r
 }
 
 func (r *Result) Hist(k string) { r.Histogram[k]++ }
